@@ -67,6 +67,13 @@ def vec(tree, n, wkind, special=False, split=False, timeout=60, fixy=False):
     p, pre, code = data_params(tree, n, mode="real", special=special, cats=2, fix_leaf_y=fixy)
     code = code.replace("None", '"c"')
     params = list(p)
+    if "x" in tree.sparse:
+        # sparse indexes saturate for huge quotients: let the solver also pick finite values far outside the int64 index range
+        import re as _re
+        code = _re.sub(r"\((x\d+),", r"(sel(h\1, \1, 1e300, -1e300),", code)
+        for i in range(1, n + 1):
+            params.append((f"hx{i}", "int"))
+            pre.append(f"0 <= hx{i} <= 2")
     if wkind == "scalar":
         params.append(("wsc", "float"))
         pre.append("wsc >= 0.0")
@@ -87,6 +94,9 @@ a, b = fresh(MK, 2)
 cols = columns(data)
 x_before = cols[0].tolist(); y_before = cols[1].tolist()
 """
+    if wkind == "array":
+        body += "WA = ARR(wrow); w_before = WA.tolist()\n"
+        warg = ", WA"
     if split:
         params.append(("cut", "int"))
         pre.append(f"0 <= cut <= {n}")
@@ -105,6 +115,16 @@ with NPM():
 for d, w in zip(data, wrow): b.fill(d, w)
 if not jeq(dropzero(J(a)), dropzero(J(b))): return "numpy-fill-differs-from-row-fill"
 if cols[0].tolist() != x_before or cols[1].tolist() != y_before: return "input-array-modified"
+"""
+    if wkind == "array" and not split:
+        body += 'if WA.tolist() != w_before: return "weight-array-modified"\n'
+        body += """
+# the same weight array reused for a second batch must still mean the same weights
+a2, b2 = fresh(MK, 2)
+with NPM():
+    a2.fill.numpy(cols, WA)
+for d, w in zip(data, wrow): b2.fill(d, w)
+if not jeq(dropzero(J(a2)), dropzero(J(b2))): return "reused-weight-array-gives-different-result"
 """
     tag = wkind + ("-s" if special else "") + ("-split" if split else "") + ("-fixy" if fixy else "")
     return Harness(
@@ -130,7 +150,7 @@ def pre_checks(tier, workdir):
     import npmodel
     ns = {}
     exec("import sys\nsys.path.insert(0, %r)\nfrom vp import *\n" % __import__("os").path.dirname(__file__) + C03_SETUP.replace("if SYMBOLIC:", "if False:"), ns)
-    xs = [-1.0, 0.0, 0.5, 1.0, 2.0, float("nan"), float("inf"), float("-inf")]
+    xs = [-1.0, 0.0, 0.5, 1.0, 2.0, float("nan"), float("inf"), float("-inf"), 1e300, -1e300]
     n_cmp = 0
     bad = []
     trees = [t for t in cat.unit() + cat.deep() + cat.slot()[:: (1 if tier == "thorough" else 7)] if _fillable(t)]
@@ -139,7 +159,7 @@ def pre_checks(tier, workdir):
         for combo in itertools.product(xs, repeat=2):
             for wform in ("none", "scalar", "array"):
                 data = [(combo[0], 0.25, "a", 1.0), (combo[1], -0.5, "b", 2.5)]
-                if t.sparse and not all(-2 <= v < 2 or v != v or abs(v) == float("inf") for v in combo):
+                if t.sparse and not all(-2 <= v < 2 or v != v or abs(v) >= 1e300 for v in combo):
                     continue
                 wl = [2.0, 0.0]
                 res = []
@@ -175,6 +195,11 @@ EXTRA = [
     ("UntypedLabel(Count,Sum)", "H.UntypedLabel(a=H.Count(), b=H.Sum(qx))"),
     ("Branch(Count,Bin)", "H.Branch(H.Count(), H.Bin(2, 0.0, 2.0, qx))"),
     ("Select>Count", "H.Select(qb, H.Count())"),
+    ("Branch(IrregularlyBin,Sum)", "H.Branch(H.IrregularlyBin([0.0, 1.0], qx), H.Sum(qy))"),
+    ("Label(Stack,Stack)", "H.Label(a=H.Stack([0.0, 1.0], qx), b=H.Stack([0.5], qy))"),
+    ("Index(CentrallyBin,CentrallyBin)", "H.Index(H.CentrallyBin([0.0, 2.0], qx), H.CentrallyBin([0.0, 2.0], qy))"),
+    ("Fraction>IrregularlyBin", "H.Fraction(qb, H.IrregularlyBin([0.0, 1.0], qy))"),
+    ("UntypedLabel(SparselyBin,Bin)", "H.UntypedLabel(a=H.SparselyBin(1.0, qx), b=H.Bin(2, 0.0, 2.0, qy))"),
     ("Bin>Count-transform", "H.Bin(2, 0.0, 2.0, qx, H.Count(lambda w: 2 * w))"),
 ]
 
@@ -185,6 +210,7 @@ def harnesses(tier):
     for t in units:
         out.append(vec(t, 2, "none", special=True))
         out.append(vec(t, 2, "array"))
+        out.append(vec(t, 2, "array", special=True, timeout=90))
         out.append(vec(t, 2, "scalar", timeout=60))
         out.append(vec(t, 2, "none", split=True))
     slots = [t for t in cat.slot() if _fillable(t)]
@@ -200,6 +226,5 @@ def harnesses(tier):
         for t in units:
             out.append(vec(t, 3, "none", timeout=240))
             out.append(vec(t, 3, "array", timeout=300))
-            out.append(vec(t, 2, "array", special=True, timeout=240))
             out.append(vec(t, 3, "array", split=True, timeout=300))
     return out
